@@ -3,7 +3,7 @@ from __future__ import annotations
 
 import copy
 
-from ..core import canon, short, shrink, outcome, octs, first_diff
+from ..core import assign_grown, canon, short, shrink, outcome, octs, first_diff
 from ..ops_ecss import mk_tc, mk_tm
 from ..ops_cfdp import mk_pdu, pdu_class, mk_fsresp, _snapshot, _i
 from ..ops_uslp import mk_frame, mk_props, matching, _ftype
@@ -102,9 +102,9 @@ class Obj:
             elif f == "seq":
                 o.seq_count = x
             elif k == "tc":
-                o.app_data = bytearray(x) if len(x) % 2 else bytes(x)      # callers also keep data in bytearrays
+                assign_grown(o, "app_data", x)      # callers also keep data in one growing bytearray
             elif k == "tm":
-                o.tm_data = bytearray(x) if len(x) % 2 else bytes(x)
+                assign_grown(o, "tm_data", x)
             elif k == "uslp":
                 o.tfdf.tfdz = bytes(x)
             elif f == "fault":
@@ -123,7 +123,7 @@ class Obj:
             elif f == "segs":
                 o.segment_requests = [(_i(s), _i(e)) for s, e in x]
             elif f == "data":
-                o.file_data = bytes(x)
+                assign_grown(o, "file_data", x)
             elif f == "meta":
                 from spacepackets.cfdp.pdu.file_data import SegmentMetadata, RecordContinuationState
                 o.segment_metadata = SegmentMetadata(RecordContinuationState(x[0]["state"]), bytes(x[0]["md"])) if x else None
